@@ -89,3 +89,8 @@ CLAIMED['C12'] = dict(
          'Proved (contract on the real function): every unsupported input is refused with AssertionError before any output exists.',
     note='bounded in cube shapes; the copying loops are outside the VC generator (out-of-range slice semantics, four nested symbolic loops); found and fixed D31, D32, D36',
     technique='bounded stand-in: native execution of the real function on a stated grid against an independent spec oracle; refusal part by contract + VCs (pyvc, z3)')
+CLAIMED['C15'] = dict(
+    text='Proof by invariant: the state SgzReader.__init__ establishes is under contract; every read contract holds for any admissible cache state and its result is a function of file and arguments; '
+         'explicit state variants for the header-array cache (fresh / padded / masked), the population mask (loaded or not) and the ordinal override; preload vs file mode give the same spec result. '
+         'lru caches are assumed transparent (justified by the purity the loader contracts establish). Known finding D16 (irregular files: padding-convention mismatch raises AssertionError) is reported, not repaired.',
+    note='AX-LRU; frozen-field frame condition enforced by the engine; multi-reader / emulator sharing argued from per-reader state + seek-before-read, not separately verified')
